@@ -93,6 +93,46 @@ func c8counting(tier string) []mc.Unit {
 			}})
 		}
 	}
+	// long coding sequences at lengths around powers of two and decimal round numbers (an enumerated family)
+	for _, n := range []int{4095, 4096, 4097, 16383, 16384, 16385, 16386, 49153, 65537, tier2(tier, 70001, 100000)} {
+		n := n
+		us = append(us, mc.Unit{Name: fmt.Sprintf("counting/long/n=%d", n), Serial: true, Weight: n/200 + 1, Run: func(r *mc.Recorder) {
+			base := deepCopyTable(codon.GetCodonTable(11))
+			var cnt int64
+			for _, fam := range []string{"ATGgcc", "lcg"} {
+				b := make([]byte, n)
+				x := uint32(4242)
+				for i := range b {
+					if fam == "lcg" {
+						x = x*1664525 + 1013904223
+						b[i] = "ACGTacgtN"[(x>>24)%9]
+					} else {
+						b[i] = fam[i%len(fam)]
+					}
+				}
+				s := string(b)
+				t := deepCopyTable(base)
+				var res codon.Table
+				if p := catch(func() { res = t.OptimizeTable(s) }); p != "" {
+					r.Failf("no-panic", fmt.Sprintf("table 11, %s sequence of %d letters", fam, n), nil, "weights", "panic: "+p)
+					continue
+				}
+				cnt++
+				want := inFrameCounts(s)
+				got := viewOf(res)
+				for _, c := range allCodons {
+					if got.w[c] != want[c] {
+						r.Failf("counts", fmt.Sprintf("table 11, %s sequence of %d letters", fam, n), nil, fmt.Sprintf("%s=%d", c, want[c]), fmt.Sprintf("%s=%d", c, got.w[c]))
+						break
+					}
+				}
+			}
+			r.Eval(cnt)
+			r.AddStates(cnt)
+			r.AddTransitions(cnt)
+			r.AddNontrivial(cnt)
+		}})
+	}
 	return us
 }
 
@@ -295,6 +335,9 @@ func c8apply(st *c8state, o c8op, check bool, hist string, r *mc.Recorder) (ok b
 		}
 		if v := viewOf(f); !viewEq(v, pristineView(id)) {
 			fail("fresh-default-pristine", leakTags(st, id), fmt.Sprintf("GetCodonTable(%d): NCBI assignments, every weight 1", id), v.diff(pristineView(id)))
+		}
+		if !sameStrings(f.StartCodons, strings.Fields(ncbiCodes[id].starts)) || !sameStrings(f.StopCodons, strings.Fields(ncbiCodes[id].stops)) {
+			fail("fresh-default-start-stop", nil, fmt.Sprintf("GetCodonTable(%d): starts %s stops %s", id, ncbiCodes[id].starts, ncbiCodes[id].stops), fmt.Sprint(f.StartCodons, f.StopCodons))
 		}
 	}
 	return
